@@ -42,7 +42,7 @@ def _table(rng, bintest=False):
     full = (not bintest) or rng.random() < 0.5       # bintest: half the tables hold bins of weight exactly 1
     bins = {k: [] for k in ("chromosome", "start", "end", "gene", "log2", "weight", "depth")}
     segs = {k: [] for k in ("chromosome", "start", "end", "gene", "log2", "probes", "weight")}
-    for c in ["chr1", "chr2", "chrX"][:nchr]:
+    for c in ["chr2", "chr10", "chrX"][:nchr]:      # natural order differs from string order
         pos = 1000
         for _s in range(int(rng.integers(1, 6))):
             kind = rng.random()
